@@ -115,6 +115,38 @@ func memIssues(rs *Resid, fn *ast.FuncDecl) []sideIssue {
 		return out
 	}
 
+	// the table only grows: an entry, once stored, is never overwritten, moved or removed (at most one evaluation per
+	// argument class needs every stored result to stay findable). The only writes to table storage are `m[k] = …`
+	// on the table map itself; indexed stores into a bucket, copy(…) into one and delete(…) are violations.
+	tableMaps := map[string]bool{}
+	for _, st := range fn.Body.List {
+		if as, ok := st.(*ast.AssignStmt); ok && as.Tok == token.DEFINE && len(as.Lhs) == 1 && len(as.Rhs) == 1 {
+			if c, ok := as.Rhs[0].(*ast.CallExpr); ok {
+				if id, ok := c.Fun.(*ast.Ident); ok && id.Name == "make" && len(c.Args) > 0 {
+					if _, isMap := c.Args[0].(*ast.MapType); isMap {
+						tableMaps[canon(as.Lhs[0])] = true
+					}
+				}
+			}
+		}
+	}
+	ast.Inspect(body, func(n ast.Node) bool {
+		switch x := n.(type) {
+		case *ast.AssignStmt:
+			for _, l := range x.Lhs {
+				if ix, ok := unparen(l).(*ast.IndexExpr); ok {
+					if !tableMaps[canon(ix.X)] {
+						iss(x, "table-overwrite", "stores into %s: an entry of the memo table is overwritten or moved after it was stored, so a result that was already computed can be lost and f evaluated again for its arguments", rs.src(l))
+					}
+				}
+			}
+		case *ast.CallExpr:
+			if id, ok := x.Fun.(*ast.Ident); ok && (id.Name == "copy" || id.Name == "delete" || id.Name == "clear") {
+				iss(x, "table-overwrite", "calls %s on table storage: stored results can be lost and f evaluated again for their arguments", id.Name)
+			}
+		}
+		return true
+	})
 	// keyed forms. The key: the single parameter, or a struct literal of all parameters in order.
 	key := ""
 	if len(binders) == 1 {
